@@ -64,6 +64,27 @@ func gridConfig(r *ref.Rand, thorough bool) StoreCfg {
 	return c
 }
 
+// limitServed restricts a configuration to at most n served buckets (opening a
+// bucket costs tens of milliseconds in the store itself; restart-heavy checks
+// keep the bucket count of the grid but serve only a few of them).
+func limitServed(cs []StoreCfg, n int, seed uint64) []StoreCfg {
+	r := ref.NewRand(seed ^ 0xb0c4e7)
+	for i := range cs {
+		c := &cs[i]
+		if c.NumBucket == 1 {
+			continue
+		}
+		if c.Served == nil || len(c.Served) > n {
+			var sv []int
+			for j := 0; j < n; j++ {
+				sv = append(sv, r.Intn(c.NumBucket))
+			}
+			c.Served = sv
+		}
+	}
+	return cs
+}
+
 func configsFor(tier string, seed uint64, nquick, nthorough int) []StoreCfg {
 	r := ref.NewRand(seed ^ 0x5eed)
 	cs := cornerConfigs()
